@@ -60,21 +60,7 @@ func FuzzC26(f *testing.F) {
 		f.Add(byte(1), b)
 	}
 	f.Fuzz(func(t *testing.T, ver byte, b []byte) {
-		v := fuzzVersions[ver&3]
-		for _, dir := range []refmqtt.Direction{refmqtt.ClientToServer, refmqtt.ServerToClient} {
-			if p, n, err := refmqtt.Decode(b, v, dir); err == nil && n == len(b) {
-				if p.Type == refmqtt.CONNECT {
-					v = p.Version
-				}
-				c := c26Case{P: p, Dir: dir, Mods: c26Mods{AllowResponseInfo: true}}
-				if nontrivialPacket(p) {
-					fuzzC26.R().NonTrivial(shapeKey(p))
-				}
-				evid.FuzzStep(t, fuzzC26, c, c26Check)
-				return
-			}
-		}
-		evid.FuzzStep(t, fuzzC26, c26Case{Bytes: b, Version: v}, c26Check)
+		evid.FuzzStep(t, fuzzC26, c26Case{Bytes: b, Version: fuzzVersions[ver&3], Ref: true}, c26Check)
 	})
 }
 
